@@ -2,14 +2,14 @@
 //!
 //! Loop-free, full-domain checks of the pure arithmetic pieces of TSIG that are
 //! reachable through the crate's public API: the 48-bit `TimeSigned` conversions
-//! (src/rr/rdata/tsig.rs) against the REAL `std::time` types, and the output
+//! (src/rr/rdata/tsig.rs), and the output
 //! sizes of the two algorithms (against the real hmac/sha crates).  They back
 //! the Verus units `tsig_rdata` / `tsig`, whose `SystemTime`, `Duration` and
 //! `Hmac::output_size` are trusted stand-ins.  (`check_mac_size` and
 //! `check_time` are private to `message::tsig`; they are covered by Verus only.)
 #![allow(unused_imports, dead_code)]
 
-use std::time::{Duration, SystemTime};
+use std::time::SystemTime;
 
 use crate::message::tsig::Algorithm;
 use crate::rr::rdata::TimeSigned;
@@ -46,23 +46,11 @@ pub(crate) fn full_time_signed_octets_roundtrip() {
     assert!(<[u8; 6]>::from(back) == octets);
 }
 
-/// `TryFrom<SystemTime>` for a whole number of seconds after the epoch (any u64):
-/// never panics; Ok exactly when `secs` < 2^48 and then holds `secs`.
-/// (Whole seconds only: CBMC does not finish within 15 min with a symbolic
-/// sub-second part, because of std's division by 10^9.)
-#[kani::proof]
-pub(crate) fn full_time_signed_from_system_time() {
-    let secs: u64 = kani::any();
-    if let Some(t) = SystemTime::UNIX_EPOCH.checked_add(Duration::from_secs(secs)) {
-        match TimeSigned::try_from(t) {
-            Ok(ts) => {
-                assert!(secs < U48_LIMIT);
-                assert!(ts.to_unix_time() == secs);
-            }
-            Err(_) => assert!(secs >= U48_LIMIT),
-        }
-    }
-}
+// NOTE: harnesses for `TryFrom<SystemTime> for TimeSigned` were tried and removed:
+// CBMC does not finish within 10-15 minutes on `SystemTime::checked_add` +
+// `duration_since` (std's Timespec arithmetic), neither with a symbolic u64 nor
+// with the seconds restricted to within 4 of {0, 2^32, 2^48, 2^62}.  That
+// conversion is covered by Verus (unit tsig_rdata) over the std stand-in only.
 
 /// `TryFrom<TimeSigned> for SystemTime` never panics, for any six octets.
 #[kani::proof]
@@ -70,16 +58,6 @@ pub(crate) fn full_system_time_from_time_signed() {
     let octets: [u8; 6] = kani::any();
     let ts = TimeSigned::from(octets);
     let _ = SystemTime::try_from(ts);
-}
-
-/// A time a whole number of seconds before the epoch is rejected (no panic, no wrap-around).
-#[kani::proof]
-pub(crate) fn full_time_signed_before_epoch() {
-    let secs: u64 = kani::any();
-    kani::assume(secs > 0);
-    if let Some(t) = SystemTime::UNIX_EPOCH.checked_sub(Duration::from_secs(secs)) {
-        assert!(TimeSigned::try_from(t).is_err());
-    }
 }
 
 /// RFC 8945 section 6 / FIPS 180-4: HMAC-SHA1 gives 20 octets, HMAC-SHA256 32
